@@ -6,7 +6,7 @@ import copy
 import numpy as np
 
 from . import data as D
-from .env import Env, new_stats
+from .env import Env, InjectedInterrupt, InjectedMemoryError, is_injected, new_stats
 from .refmodels import ref_ridge2fold, ref_scores
 from .util import EPS, Digest, arr_to_hex
 
@@ -43,6 +43,7 @@ def gen_c10(rng, idx, tier, faults):
         "E": {"kind": "gauss", "shape": [n, p], "seed": _seed(rng)},
     }
     ydef = {"from": ["X", "W", "E"], "noise": noise, "squeeze": bool(p == 1 and rng.random() < 0.5)}
+    ydef["storage"] = "C"
     alpha_type = rng.choice(["absolute", "relative"])
     method = rng.choice(["tikhonov", "cutoff"])
     na = rng.randint(1, 10)
@@ -58,6 +59,13 @@ def gen_c10(rng, idx, tier, faults):
         "regularization_method": method,
         "scoring": rng.choice(SCORINGS),
     }
+    if rng.random() < 0.15:
+        params["alphas_form"] = rng.choice(["ndarray", "ndarray_readonly", "tuple"])  # default: list
+    if params["scoring"] is not None and rng.random() < 0.15:
+        params["scoring_form"] = "scorer_object"  # the scorer object instead of its name
+    if rng.random() < 0.2:
+        xs["storage"] = rng.choice(["F", "view", "readonly"])  # the caller's memory layout
+    y_storage = rng.choice(["C", "C", "C", "view", "F"])
     r = rng.random()
     if r < 0.45:
         cv = None
@@ -88,7 +96,10 @@ def gen_c10(rng, idx, tier, faults):
         if cv["n_splits"] > n // 2:
             cv["n_splits"] = 2
         cv["random_state"] = rng.randrange(1000) if cv["shuffle"] else None
+    if cv is None and not params["shuffle"] and rng.random() < 0.15:
+        cv = {"type": "int", "n_splits": 2 if n < 6 else rng.choice([2, 3])}  # cv=<int>: unshuffled KFold
     params["cv"] = cv
+    ydef["storage"] = y_storage
     nlanes = 2 if faults else 1
     ops = []
     for li in range(nlanes):
@@ -108,6 +119,11 @@ def gen_c10(rng, idx, tier, faults):
             jb = {"mode": "inline", "workers": rng.randint(2, 3)}
         env = {"joblib": jb, "rng": {"seed": _seed(rng) if (faults or li == 0) else 12345}}
         ops.append({"op": "NEW", "obj": f"e{li}", "params": pr})
+        if faults and li == 0 and rng.random() < 0.12 and (cv is None or cv["type"] != "generator"):
+            # the fit crashes at an arbitrary line; the caller fits the same object again
+            cenv = dict(env)
+            cenv["interrupt"] = {"exc": rng.choice(["KeyboardInterrupt", "MemoryError"]), "at": rng.randint(1, 120)}
+            ops.append({"op": "FIT", "obj": f"e{li}", "env": cenv})
         ops.append({"op": "FIT", "obj": f"e{li}", "env": env})
     if rng.random() < 0.25:
         # the caller reuses its X / y buffers: new values in the same array objects, then a
@@ -154,6 +170,8 @@ class RidgeWorld:
 
         if cv is None:
             return None
+        if cv["type"] == "int":
+            return int(cv["n_splits"])
         if cv["type"] == "kfold":
             return KFold(n_splits=cv["n_splits"], shuffle=cv["shuffle"], random_state=cv.get("random_state"))
         pairs = [(np.array(a, dtype=int), np.array(b, dtype=int)) for a, b in cv["pairs"]]
@@ -170,8 +188,9 @@ class RidgeWorld:
 
     def run(self):
         tr = self.trace
-        X = D.make_array(tr["heap"]["X"])
-        y = build_y(tr, tr["heap"])
+        X = _layout(D.make_array(tr["heap"]["X"]), tr["heap"]["X"].get("storage", "C"))
+        y = _layout(build_y(tr, tr["heap"]), tr["y"].get("storage", "C"))
+        self.x_readonly = tr["heap"]["X"].get("storage") == "readonly"
         self.env.install()
         import skmatter.linear_model._ridge as R
 
@@ -217,7 +236,11 @@ class RidgeWorld:
                         X2 = np.random.RandomState(op["seed"] & 0x7FFFFFFF).standard_normal(X.shape)
                     rs = np.random.RandomState((op["seed"] + 1) & 0x7FFFFFFF)
                     y2 = (X2 @ rs.standard_normal((X.shape[1], 1 if y.ndim == 1 else y.shape[1]))).reshape(y.shape) + 0.1 * rs.standard_normal(y.shape)
+                    if self.x_readonly:
+                        X.setflags(write=True)
                     X[...] = X2
+                    if self.x_readonly:
+                        X.setflags(write=False)
                     y[...] = y2
                     self.stats["fired"]["caller:buffer_reused"] += 1
                 elif op["op"] == "FIT":
@@ -260,8 +283,20 @@ class RidgeWorld:
         cvspec = p.pop("cv")
         n = X.shape[0]
         alphas = list(p["alphas"])
+        af = p.pop("alphas_form", None)
+        sf = p.pop("scoring_form", None)
         kw = dict(p)
         kw["cv"] = self.make_cv(cvspec, n)
+        if af == "tuple":
+            kw["alphas"] = tuple(alphas)
+        elif af:
+            kw["alphas"] = np.array(alphas, dtype=float)
+            if af == "ndarray_readonly":
+                kw["alphas"].setflags(write=False)
+        if sf == "scorer_object" and kw.get("scoring"):
+            from sklearn.metrics import get_scorer
+
+            kw["scoring"] = get_scorer(kw["scoring"])
         for k_, v_ in list(kw.items()):
             if isinstance(v_, dict) and "$npint" in v_:
                 kw[k_] = getattr(np, v_.get("dtype", "int64"))(v_["$npint"])
@@ -279,11 +314,28 @@ class RidgeWorld:
             self.stats["probes"]["refit_after_buffer_reuse"] += 1
         self.fitno[new["obj"]] = self.fitno.get(new["obj"], 0) + 1
         exc = None
-        with self.env.op(op.get("env")) as out:
+        itr = (op.get("env") or {}).get("interrupt")
+        with self.env.op({k: v for k, v in (op.get("env") or {}).items() if k != "interrupt"}) as out:
             try:
-                est.fit(X, y)  # the caller's own buffers, not copies
+                if itr:
+                    excs = {"KeyboardInterrupt": InjectedInterrupt, "MemoryError": InjectedMemoryError}[itr["exc"]]
+                    with self.env.interrupter.armed(int(itr["at"]), excs):
+                        est.fit(X, y)
+                else:
+                    est.fit(X, y)  # the caller's own buffers, not copies
+            except (InjectedInterrupt, InjectedMemoryError) as e:
+                exc = e
             except Exception as e:  # noqa: BLE001
                 exc = e
+        if exc is not None and is_injected(exc):
+            self.count("fits_failed_by_injected_fault")
+            self.stats["probes"]["fault_landed_inside_fit"] += 1
+            self.after_crash = True
+            self.fitno[new["obj"]] -= 1
+            return
+        if getattr(self, "after_crash", False):
+            self.after_crash = False
+            self.stats["probes"]["fit_after_crashed_fit_judged"] += 1
         desc = f"params={_short(p)} cv={cvspec} X={self.trace['heap']['X'].get('kind', 'explicit')}{list(X.shape)} joblib={(op.get('env') or {}).get('joblib')}"
         if exc is not None:
             self.count("fits_raised")
@@ -447,6 +499,27 @@ class RidgeWorld:
                     "schedule_dependent_result",
                     f"identical fits under different joblib schedules differ: cv_values_ {a[0].tolist()} vs {b[0].tolist()}, alpha_ {a[1]} vs {b[1]} | {a[6]} || {b[6]}",
                 )
+
+
+def _layout(a, storage):
+    """The caller's memory layout: Fortran order, a strided view into a larger buffer, or
+    a read-only array (same values)."""
+    if storage == "F":
+        return np.asfortranarray(a)
+    if storage == "view":
+        if a.ndim == 2:
+            buf = np.zeros((2 * a.shape[0] + 1, 2 * a.shape[1] + 1), dtype=a.dtype)
+            v = buf[1::2, 1::2]
+        else:
+            buf = np.zeros(2 * a.shape[0] + 1, dtype=a.dtype)
+            v = buf[1::2]
+        v[...] = a
+        return v
+    if storage == "readonly":
+        b = np.array(a, copy=True)
+        b.setflags(write=False)
+        return b
+    return a
 
 
 def _short(p):
